@@ -23,7 +23,8 @@ def run(tier, seed):
                  "Bit-level abstract evaluation over GF(2) of the SSA body of lha_crc16_buf: the next state is an affine function "
                  "of the 16 state bits and 8 data bits whose 24x16 matrix equals that of the bitwise CRC-16/ARC step (constant "
                  "term 0); the lookup table is verified affine in its index and is never written; the routine is a left fold "
-                 "over buf[0..buf_len) from *crc to *crc with no other state, so any split gives the same value; callers start "
+                 "over buf[0..buf_len) from *crc to *crc with no other state - every loop-carried value is affine in the "
+                 "iteration number at the full width of buf_len, the byte read in iteration k is buf[k], the loop is left exactly at k == buf_len - so any split gives the same value; callers start "
                  "at 0 and compare the raw accumulator.")
     rep.trusted_base = ["clang 14 C front end, LLVM sroa/early-cse preserve semantics", "irx serialises the IR faithfully",
                         "sa/lhsa/gf2.py (bit-affine domain) and the rule code in sa/lhsa/props/c17.py",
